@@ -1,7 +1,7 @@
 #!/bin/bash
 # tools/run_all.sh [quick|thorough]  - run every registered check, print one summary line each
 tier=${1:-quick}
-cd /verif
+cd "$(dirname "$0")/.."
 for id in $(python3 -c "import json; print(' '.join(c['property_id'] for c in json.load(open('MANIFEST.json'))['checks']))"); do
   out=$(./check $id --tier $tier 2>&1); code=$?
   echo "$(echo "$out" | grep -E "^$id tier=" | tail -1) [exit=$code]"
